@@ -743,6 +743,18 @@ class Fn:
                 if arg.get('kind') == 'ArraySubscriptExpr':
                     self.e(arg['inner'][0])          # the base must translate (opaque pointer / address_of member), its value is not used
                     return f'({callee["referencedDecl"]["name"]} {self.e(arg["inner"][1])})'
+                if arg.get('kind') == 'UnaryOperator' and arg.get('opcode') == '*' and self.ctx.cfg.get('index_pred_item_ptr'):
+                    # C02: `itemPred(*node->GetItemPtr(i))` with "index_pred_item_ptr": "GetItemPtr": the predicate on logical item i
+                    ip_ = skip_wrappers(arg['inner'][0])
+                    while ip_.get('kind') == 'ImplicitCastExpr':
+                        ip_ = skip_wrappers(ip_['inner'][0])
+                    if ip_.get('kind') in ('CXXMemberCallExpr', 'CallExpr') and len(ip_.get('inner', [])) == 2:
+                        try:
+                            ipn_ = self.callee_name(ip_)[0]
+                        except TranslationError:
+                            ipn_ = None
+                        if ipn_ == self.ctx.cfg['index_pred_item_ptr']:
+                            return f'({callee["referencedDecl"]["name"]} {self.e(ip_["inner"][1])})'
                 if arg.get('kind') == 'UnaryOperator' and arg.get('opcode') == '*':
                     self.e(arg['inner'][0])
                     return f'({callee["referencedDecl"]["name"]} (0))'
@@ -1607,6 +1619,11 @@ class Fn:
                 if nm == 'operator=' and ea_ is not None and len(s0['inner']) == 3:
                     # C20: "effect_assign": {"<fn>": {"field": f, "fn": g, "args": [locals]}}: an assignment of a freshly constructed class
                     # object (`*mMemPool = MemPool(memPoolParams, ...)`) is modelled as f := g f locals; every listed local must occur in the rhs
+                    if ea_.get('lhs_deref'):   # C20: the assigned object must be `*<member>` (the pointee is replaced in place), not the pointer member itself
+                        l_ = skip_wrappers(s0['inner'][1]); lt_ = json.dumps(l_)
+                        if not (l_.get('kind') in ('CXXOperatorCallExpr', 'UnaryOperator') and ('"name": "%s"' % ea_['lhs_deref']) in lt_
+                                and ('operator*' in lt_ or l_.get('opcode') == '*')):
+                            raise TranslationError('effect_assign: the assignment target is not *%s' % ea_['lhs_deref'])
                     txt_ = json.dumps(s0['inner'][2])
                     for a_ in ea_['args']:
                         if ('"name": "%s"' % a_) not in txt_ or a_ not in self.env:
